@@ -127,6 +127,12 @@ func TestC02(t *testing.T) {
 	for i, pn := 0, r.Pick(16, 600); i < pn; i++ {
 		cases = append(cases, mon.CaseSpec{Name: "pingpong", Spec: spec{Kind: "pingpong", Proto: []string{"push", "xpush", "pair", "xpair"}[i%4], Peers: 1 + (i/4)%2, WQ: []int{1, 8, 128}[rnd.Intn(3)], Msgs: 20000, Procs: []int{0, 2, 4, 16}[(i/8)%4]}})
 	}
+	// hookrefuse: connections turned away by the application's pipe-event hook, then one let through
+	for i, hn := 0, r.Pick(32, 1200); i < hn; i++ {
+		sp := spec{Kind: "hookrefuse", Proto: []string{"pair", "pair1", "xpair", "xpair1", "push", "xpush"}[i%6], Hook: []string{"attaching", "attached"}[(i/6)%2], Flip: (i/12)%2 == 1,
+			Peers: 1 + rnd.Intn(3), Reconn: 1 + rnd.Intn(3), Msgs: 3 + rnd.Intn(6), WQ: []int{1, 2, 128}[rnd.Intn(3)], Procs: procs[rnd.Intn(3)], Yield: rnd.Intn(2) == 0}
+		cases = append(cases, mon.CaseSpec{Name: "hook-refuse/" + sp.Proto + "/" + sp.Hook, Spec: sp})
+	}
 	// sizes: every total size of contiguous windows over every transport with a framing of its own
 	{
 		sprotos := []string{"pair", "pair1", "push"}
@@ -197,6 +203,8 @@ func TestC02(t *testing.T) {
 			runKnockReal(c, sp)
 		case "sizes":
 			runSizes(c, sp)
+		case "hookrefuse":
+			runHookRefuse(c, sp)
 		}
 	})
 }
@@ -1935,4 +1943,133 @@ func runSizes(c *mon.Case, sp spec) {
 	c.Count("sizes_bytes_compared", int(bytesOK.Load()))
 	c.Nontrivial()
 	c.Sig("sizes|%s|%s|%d-%d|%v|%s|%v|%v|%d|%d", sp.Proto, sp.Tran, sp.Lo, sp.Hi, sp.Edges, sp.Order, sp.Flip, sp.Chop, sp.WQ, sp.RQ)
+}
+
+// ---------------------------------------------------------------------------
+
+// runHookRefuse: the application's PipeEventHook closes the first sp.Peers connections (during Attaching
+// or during Attached) on a listening or dialling (sp.Flip) socket and lets the next one through.  The
+// refused connections have gone (the hook's Close has returned), so a PAIR-family socket must admit the
+// next peer and converse with it, and a PUSH socket must deliver every following message to the only
+// connected peer.
+func runHookRefuse(c *mon.Case, sp spec) {
+	s := hx.MustSock(c, sp.Proto)
+	push := strings.HasSuffix(sp.Proto, "push")
+	if push {
+		if err := s.SetOption(mangos.OptionWriteQLen, sp.WQ); err != nil {
+			c.Inconclusive("setup: WriteQLen: %v", err)
+			return
+		}
+	}
+	name := hx.Uniq("c02h")
+	c.Cleanup(func() { vt.Forget(name) })
+	var mu sync.Mutex
+	seen, refused, admitted := 0, 0, 0
+	s.SetPipeEventHook(func(ev mangos.PipeEvent, p mangos.Pipe) {
+		if ev == mangos.PipeEventAttaching {
+			mu.Lock()
+			seen++
+			mu.Unlock()
+		}
+		mu.Lock()
+		turn := refused < sp.Peers
+		mu.Unlock()
+		switch {
+		case ev == mangos.PipeEventAttaching && sp.Hook == "attaching" && turn, ev == mangos.PipeEventAttached && sp.Hook == "attached" && turn:
+			_ = p.Close()
+			mu.Lock()
+			refused++ // Close has returned: the connection has gone as far as the application can tell
+			mu.Unlock()
+			vt.Kick()
+		case ev == mangos.PipeEventAttached:
+			mu.Lock()
+			admitted++
+			mu.Unlock()
+			vt.Kick()
+		}
+	})
+	get := func(v *int) int { mu.Lock(); defer mu.Unlock(); return *v }
+	var pipes func() []*vt.Pipe
+	if sp.Flip {
+		D := vt.D(name)
+		D.SetDefault(vt.Outcome{Kind: vt.Succeed})
+		_ = s.SetOption(mangos.OptionReconnectTime, time.Duration(sp.Reconn)*time.Millisecond)
+		_ = s.SetOption(mangos.OptionMaxReconnectTime, 10*time.Millisecond)
+		if err := s.Dial(vt.Addr(name)); err != nil {
+			c.Inconclusive("setup: Dial: %v", err)
+			return
+		}
+		pipes = D.Pipes
+	} else {
+		L := vt.L(name)
+		if err := s.Listen(vt.Addr(name)); err != nil {
+			c.Inconclusive("setup: Listen: %v", err)
+			return
+		}
+		for i := 0; i < sp.Peers; i++ {
+			L.Connect()
+			i := i
+			if !c.AwaitOrViolate("harness:hook-refusal-stuck", fmt.Sprintf("the hook turning connection %d away", i), func() bool { return get(&refused) > i }, mon.AwaitOpts{MaxTimer: 200 * time.Millisecond}) {
+				return
+			}
+		}
+		L.Connect()
+		pipes = L.Pipes
+	}
+	fam := "pair"
+	if push {
+		fam = "push"
+	}
+	if !c.AwaitOrViolate(fam+"/peer-not-admitted-after-hook-refusal:"+sp.Hook, fmt.Sprintf("a peer being admitted after the hook closed %d connection(s) during %s", sp.Peers, sp.Hook),
+		func() bool { return get(&refused) >= sp.Peers && get(&admitted) >= 1 && len(pipes()) > sp.Peers }, mon.AwaitOpts{MaxTimer: 200 * time.Millisecond}) {
+		return
+	}
+	ps := pipes()
+	px := ps[sp.Peers]
+	c.Count("hook_refused", sp.Peers)
+	if !push {
+		if !vtExchange(c, s, px, sp.Proto, sp.Msgs, "after-hook-refusal") {
+			return
+		}
+	} else {
+		nonce := hx.Uniq("n")
+		for q := 0; q < sp.Msgs; q++ {
+			msg := payload(nonce, 0, 0, q)
+			k := mon.Go(fmt.Sprintf("Send#%d", q), func() (interface{}, error) { return nil, s.Send(msg) })
+			if !c.AwaitOrViolate("push/send-stuck:after-hook-refusal", fmt.Sprintf("Send %d with a peer connected", q), k.Done, mon.AwaitOpts{}) {
+				return
+			}
+			if _, e, _ := k.Result(); e != nil {
+				c.Violate("push/send-error:after-hook-refusal", "Send returned %v", e)
+				return
+			}
+		}
+		if !c.AwaitOrViolate("push/message-lost-after-hook-refusal:"+sp.Hook, fmt.Sprintf("%d messages reaching the only connected peer", sp.Msgs), func() bool { return px.SentCount() >= sp.Msgs }, mon.AwaitOpts{}) {
+			return
+		}
+		sl := px.SentLog()
+		for q := 0; q < sp.Msgs && q < len(sl); q++ {
+			if want := payload(nonce, 0, 0, q); string(sl[q].Body) != string(want) {
+				c.Violate("push/order-or-content:after-hook-refusal", "message %d at the peer is %q, want %q", q, sl[q].Body, want)
+				return
+			}
+		}
+		if len(sl) > sp.Msgs {
+			c.Violate("push/duplicate:after-hook-refusal", "peer got %d messages, %d sent", len(sl), sp.Msgs)
+			return
+		}
+		c.Count("delivered", len(sl))
+	}
+	for i := 0; i < sp.Peers; i++ {
+		if n := ps[i].SentCount(); n != 0 {
+			c.Violate(fam+"/refused-peer-got-traffic:hook", "connection %d, closed by the hook, was sent %d message(s)", i, n)
+			return
+		}
+	}
+	c.Nontrivial()
+	side := "listen"
+	if sp.Flip {
+		side = "dial"
+	}
+	c.Sig("hookrefuse|%s|%s|%s|%d", sp.Proto, sp.Hook, side, sp.Peers)
 }
